@@ -100,6 +100,7 @@ var lfIfaceImpl = map[string][]string{
 	"db.Context":          {}, // per-reader scratch state, no locks
 	"stats.Stats":         {"metrics.Stats"},
 	"dnsserver.Logger":    {}, // logging back-ends are outside the property
+	"rdb.DBI":             {}, // implemented by cgo-rocksdb only (outside the repository's Go code)
 }
 
 // ---------------------------------------------------------------------------------------------
@@ -112,6 +113,15 @@ type lfTy struct {
 }
 
 func (t lfTy) known() bool { return t.name != "" || t.kind != "" }
+
+// foreign: a value of a type declared outside the scanned packages (its methods take none of our locks)
+func (w *lfWorld) foreign(t lfTy) bool {
+	if t.kind != "" || t.name == "" || t.pkg == "" || t.pkg == "ambiguous" {
+		return false
+	}
+	_, scanned := w.pkgs[t.pkg]
+	return !scanned
+}
 func (t lfTy) key() string { return t.pkg + "." + t.name }
 func (t lfTy) isMutex() (rw bool, ok bool) {
 	if t.pkg == "sync" && t.name == "Mutex" {
@@ -141,6 +151,8 @@ type lfPkg struct {
 	files   []*lfFile
 	structs map[string][]lfStructField
 	ifaces  map[string]bool
+	imeth   map[string]*ast.FuncType // "Iface.Method"
+	imfile  map[string]*lfFile
 	funcs   map[string]*ast.FuncDecl // "Recv.Name" or "Name"
 	fnFile  map[string]*lfFile
 }
@@ -165,6 +177,7 @@ func lfLoad(root string) (*lfWorld, error) {
 			return nil, err
 		}
 		p := &lfPkg{key: pc.key, structs: map[string][]lfStructField{}, ifaces: map[string]bool{},
+			imeth: map[string]*ast.FuncType{}, imfile: map[string]*lfFile{},
 			funcs: map[string]*ast.FuncDecl{}, fnFile: map[string]*lfFile{}}
 		names := []string{}
 		for _, e := range ents {
@@ -226,6 +239,14 @@ func lfLoad(root string) (*lfWorld, error) {
 							p.structs[ts.Name.Name] = fs
 						case *ast.InterfaceType:
 							p.ifaces[ts.Name.Name] = true
+							for _, m := range t.Methods.List {
+								if ft, ok := m.Type.(*ast.FuncType); ok {
+									for _, nm := range m.Names {
+										p.imeth[ts.Name.Name+"."+nm.Name] = ft
+										p.imfile[ts.Name.Name+"."+nm.Name] = lf
+									}
+								}
+							}
 						}
 					}
 				case *ast.FuncDecl:
@@ -294,6 +315,8 @@ func (w *lfWorld) typeOf(p *lfPkg, lf *lfFile, e ast.Expr) lfTy {
 			if imp, ok := lf.imports[id.Name]; ok {
 				return lfTy{pkg: imp, name: t.Sel.Name}
 			}
+			// a qualified type always names a package (its declared name may differ from the path)
+			return lfTy{pkg: "import:" + id.Name, name: t.Sel.Name}
 		}
 	case *ast.MapType:
 		el := w.typeOf(p, lf, t.Value)
@@ -409,13 +432,33 @@ type lfUnit struct {
 	body   *ast.BlockStmt
 	ftype  *ast.FuncType
 	recv   *ast.FieldList
-	env    map[string]lfTy // shared by a function and its closures
+	env    map[string][]lfBinding // shared by a function and its closures
 	init   bool
 	ctx    []lfHeld
 	owner  string // top-level function short name (names local mutexes)
 	events []lfEvent
 	direct map[string]bool // locks acquired directly
 	nlit   *int
+}
+
+type lfBinding struct {
+	from, to token.Pos
+	t        lfTy
+}
+
+func (u *lfUnit) lookup(name string, pos token.Pos) (lfTy, bool) {
+	best := -1
+	for i, b := range u.env[name] {
+		if b.from <= pos && pos <= b.to {
+			if best < 0 || b.from > u.env[name][best].from || (b.from == u.env[name][best].from && b.t.known()) {
+				best = i
+			}
+		}
+	}
+	if best < 0 {
+		return lfTy{}, false
+	}
+	return u.env[name][best].t, true
 }
 
 type lfAn struct {
@@ -438,31 +481,21 @@ func lfPrint(fset *token.FileSet, e ast.Node) string {
 	return b.String()
 }
 
-func (a *lfAn) bind(u *lfUnit, name string, t lfTy) {
-	if name == "_" || !t.known() {
-		if _, ok := u.env[name]; !ok {
-			u.env[name] = lfTy{}
-		}
+func (a *lfAn) bind(u *lfUnit, name string, t lfTy, from, to token.Pos) {
+	if name == "_" {
 		return
 	}
-	if old, ok := u.env[name]; ok && old.known() && (old.pkg != t.pkg || old.name != t.name || old.kind != t.kind) {
-		u.env[name] = lfTy{name: "", kind: "", pkg: "ambiguous"}
-		return
-	}
-	if old, ok := u.env[name]; ok && old.pkg == "ambiguous" {
-		return
-	}
-	u.env[name] = t
+	u.env[name] = append(u.env[name], lfBinding{from, to, t})
 }
 
-func (a *lfAn) bindFieldList(u *lfUnit, fl *ast.FieldList) {
+func (a *lfAn) bindFieldList(u *lfUnit, fl *ast.FieldList, from, to token.Pos) {
 	if fl == nil {
 		return
 	}
 	for _, f := range fl.List {
 		t := a.w.typeOf(u.pkg, u.file, f.Type)
 		for _, n := range f.Names {
-			a.bind(u, n.Name, t)
+			a.bind(u, n.Name, t, from, to)
 		}
 	}
 }
@@ -475,6 +508,42 @@ func (a *lfAn) results(u *lfUnit, call *ast.CallExpr) []lfTy {
 		}
 		if id.Name == "make" && len(call.Args) >= 1 {
 			return []lfTy{a.w.typeOf(u.pkg, u.file, call.Args[0])}
+		}
+	}
+	if sel, ok := call.Fun.(*ast.SelectorExpr); ok {
+		if id, ok := sel.X.(*ast.Ident); ok {
+			if _, local := u.lookup(id.Name, id.Pos()); !local {
+				if imp, ok := u.file.imports[id.Name]; ok {
+					if _, scanned := a.w.pkgs[imp]; !scanned {
+						return []lfTy{{pkg: imp, name: "<foreign>"}}
+					}
+				}
+			}
+		}
+		if t := a.exprType(u, sel.X); a.w.foreign(t) {
+			return []lfTy{{pkg: t.pkg, name: "<foreign>"}}
+		}
+	}
+	if sel, ok := call.Fun.(*ast.SelectorExpr); ok {
+		if t := a.exprType(u, sel.X); t.known() {
+			if p, ok := a.w.pkgs[t.pkg]; ok && p.ifaces[t.name] {
+				ft := p.imeth[t.name+"."+sel.Sel.Name]
+				if ft == nil || ft.Results == nil {
+					return nil
+				}
+				var out []lfTy
+				for _, f := range ft.Results.List {
+					rt := a.w.typeOf(p, p.imfile[t.name+"."+sel.Sel.Name], f.Type)
+					n := len(f.Names)
+					if n == 0 {
+						n = 1
+					}
+					for j := 0; j < n; j++ {
+						out = append(out, rt)
+					}
+				}
+				return out
+			}
 		}
 	}
 	var out []lfTy
@@ -503,10 +572,7 @@ func (a *lfAn) results(u *lfUnit, call *ast.CallExpr) []lfTy {
 func (a *lfAn) exprType(u *lfUnit, e ast.Expr) lfTy {
 	switch x := e.(type) {
 	case *ast.Ident:
-		if t, ok := u.env[x.Name]; ok {
-			if t.pkg == "ambiguous" {
-				return lfTy{}
-			}
+		if t, ok := u.lookup(x.Name, x.Pos()); ok {
 			return t
 		}
 	case *ast.ParenExpr:
@@ -524,6 +590,9 @@ func (a *lfAn) exprType(u *lfUnit, e ast.Expr) lfTy {
 		}
 	case *ast.SelectorExpr:
 		t := a.exprType(u, x.X)
+		if a.w.foreign(t) {
+			return lfTy{pkg: t.pkg, name: "<foreign>"}
+		}
 		if t.known() {
 			if ft, ok := a.w.field(t, x.Sel.Name); ok {
 				return ft
@@ -552,25 +621,43 @@ func (a *lfAn) exprType(u *lfUnit, e ast.Expr) lfTy {
 	return lfTy{}
 }
 
-// bindLocals fills the flat environment of a top-level function (closures included).
+// bindLocals fills the environment of a top-level function (closures included). Every binding has
+// its lexical extent: from the end of the declaring statement to the end of the innermost enclosing
+// block / clause / if / for / switch / range / function literal.
 func (a *lfAn) bindLocals(u *lfUnit) {
-	a.bindFieldList(u, u.recv)
-	a.bindFieldList(u, u.ftype.Params)
-	a.bindFieldList(u, u.ftype.Results)
 	for pass := 0; pass < 2; pass++ {
+		a.bindFieldList(u, u.recv, u.body.Pos(), u.body.End())
+		a.bindFieldList(u, u.ftype.Params, u.body.Pos(), u.body.End())
+		a.bindFieldList(u, u.ftype.Results, u.body.Pos(), u.body.End())
+		var stack []ast.Node
+		scopeEnd := func() token.Pos {
+			for i := len(stack) - 1; i >= 0; i-- {
+				switch n := stack[i].(type) {
+				case *ast.BlockStmt, *ast.CaseClause, *ast.CommClause, *ast.IfStmt, *ast.ForStmt,
+					*ast.SwitchStmt, *ast.TypeSwitchStmt, *ast.RangeStmt, *ast.FuncLit, *ast.SelectStmt:
+					return n.End()
+				}
+			}
+			return u.body.End()
+		}
 		ast.Inspect(u.body, func(n ast.Node) bool {
+			if n == nil {
+				stack = stack[:len(stack)-1]
+				return true
+			}
 			switch s := n.(type) {
 			case *ast.FuncLit:
-				a.bindFieldList(u, s.Type.Params)
-				a.bindFieldList(u, s.Type.Results)
+				a.bindFieldList(u, s.Type.Params, s.Body.Pos(), s.Body.End())
+				a.bindFieldList(u, s.Type.Results, s.Body.Pos(), s.Body.End())
 			case *ast.AssignStmt:
 				if s.Tok != token.DEFINE {
-					return true
+					break
 				}
+				to := scopeEnd()
 				if len(s.Lhs) == len(s.Rhs) {
 					for i, l := range s.Lhs {
 						if id, ok := l.(*ast.Ident); ok {
-							a.bind(u, id.Name, a.exprType(u, s.Rhs[i]))
+							a.bind(u, id.Name, a.exprType(u, s.Rhs[i]), s.End(), to)
 						}
 					}
 				} else if len(s.Rhs) == 1 {
@@ -582,44 +669,59 @@ func (a *lfAn) bindLocals(u *lfUnit) {
 						rs = []lfTy{a.exprType(u, r)}
 					case *ast.TypeAssertExpr:
 						rs = []lfTy{a.exprType(u, r)}
+					case *ast.UnaryExpr: // v, ok := <-ch
+						rs = []lfTy{a.exprType(u, r)}
 					}
 					for i, l := range s.Lhs {
 						if id, ok := l.(*ast.Ident); ok {
-							if i < len(rs) {
-								a.bind(u, id.Name, rs[i])
-							} else {
-								a.bind(u, id.Name, lfTy{})
+							switch {
+							case i < len(rs):
+								a.bind(u, id.Name, rs[i], s.End(), to)
+							case len(rs) == 1 && a.w.foreign(rs[0]):
+								a.bind(u, id.Name, rs[0], s.End(), to)
+							default:
+								a.bind(u, id.Name, lfTy{}, s.End(), to)
 							}
 						}
 					}
 				}
 			case *ast.ValueSpec:
+				to := scopeEnd()
 				for i, nm := range s.Names {
 					if s.Type != nil {
-						a.bind(u, nm.Name, a.w.typeOf(u.pkg, u.file, s.Type))
+						a.bind(u, nm.Name, a.w.typeOf(u.pkg, u.file, s.Type), s.End(), to)
 					} else if i < len(s.Values) {
-						a.bind(u, nm.Name, a.exprType(u, s.Values[i]))
+						a.bind(u, nm.Name, a.exprType(u, s.Values[i]), s.End(), to)
+					} else {
+						a.bind(u, nm.Name, lfTy{}, s.End(), to)
 					}
 				}
 			case *ast.RangeStmt:
 				if s.Tok == token.DEFINE {
 					t := a.exprType(u, s.X)
 					if id, ok := s.Value.(*ast.Ident); ok && s.Value != nil {
-						if t.elem != nil && (t.kind == "map" || t.kind == "slice" || t.kind == "chan") {
-							a.bind(u, id.Name, *t.elem)
-						} else {
-							a.bind(u, id.Name, lfTy{})
+						vt := lfTy{}
+						if t.elem != nil && (t.kind == "map" || t.kind == "slice") {
+							vt = *t.elem
 						}
+						a.bind(u, id.Name, vt, s.Body.Pos(), s.Body.End())
 					}
 					if id, ok := s.Key.(*ast.Ident); ok && s.Key != nil {
+						kt := lfTy{}
 						if t.kind == "chan" && t.elem != nil {
-							a.bind(u, id.Name, *t.elem)
-						} else {
-							a.bind(u, id.Name, lfTy{})
+							kt = *t.elem
 						}
+						a.bind(u, id.Name, kt, s.Body.Pos(), s.Body.End())
+					}
+				}
+			case *ast.TypeSwitchStmt:
+				if as, ok := s.Assign.(*ast.AssignStmt); ok && len(as.Lhs) == 1 {
+					if id, ok := as.Lhs[0].(*ast.Ident); ok {
+						a.bind(u, id.Name, lfTy{}, s.Pos(), s.End())
 					}
 				}
 			}
+			stack = append(stack, n)
 			return true
 		})
 	}
@@ -634,7 +736,7 @@ func (a *lfAn) resolveCall(u *lfUnit, call *ast.CallExpr, report bool) []string 
 		c2.Fun = f.X
 		return a.resolveCall(u, &c2, report)
 	case *ast.Ident:
-		if _, local := u.env[f.Name]; local {
+		if _, local := u.lookup(f.Name, f.Pos()); local {
 			return nil // function value
 		}
 		if _, ok := u.pkg.funcs[f.Name]; ok {
@@ -642,7 +744,7 @@ func (a *lfAn) resolveCall(u *lfUnit, call *ast.CallExpr, report bool) []string 
 		}
 	case *ast.SelectorExpr:
 		if id, ok := f.X.(*ast.Ident); ok {
-			if _, local := u.env[id.Name]; !local {
+			if _, local := u.lookup(id.Name, id.Pos()); !local {
 				if imp, ok := u.file.imports[id.Name]; ok {
 					if p, ok := a.w.pkgs[imp]; ok {
 						if _, ok := p.funcs[f.Sel.Name]; ok {
@@ -852,19 +954,18 @@ func (a *lfAn) expr(u *lfUnit, e ast.Expr, mode byte, held []lfHeld) {
 				continue
 			}
 			if isKV {
+				matched := false
 				if id, ok := kv.Key.(*ast.Ident); ok && len(paths) > 0 {
 					for _, f := range paths {
 						if f.path[0] == id.Name {
 							// initialisation of a fresh, not yet shared object
 							a.emit(u, f, "", true, true, nil, kv.Pos())
+							matched = true
 						}
 					}
-				} else if len(paths) == 0 {
-					if _, isStruct := a.w.pkgs[t.pkg]; !isStruct || t.kind != "" {
-						a.expr(u, kv.Key, 'r', held)
-					} else if _, ok := a.w.pkgs[t.pkg].structs[t.name]; !ok {
-						a.expr(u, kv.Key, 'r', held)
-					}
+				}
+				if !matched {
+					a.expr(u, kv.Key, 'r', held)
 				}
 				a.expr(u, kv.Value, 'r', held)
 			} else {
@@ -952,7 +1053,7 @@ func (a *lfAn) exprNonTerminal(u *lfUnit, e ast.Expr, held []lfHeld) {
 func (a *lfAn) call(u *lfUnit, c *ast.CallExpr, held []lfHeld, isGo bool) {
 	// builtins with a written first argument
 	if id, ok := c.Fun.(*ast.Ident); ok {
-		if _, shadow := u.env[id.Name]; !shadow {
+		if _, shadow := u.lookup(id.Name, id.Pos()); !shadow {
 			switch id.Name {
 			case "delete", "copy", "clear":
 				for i, arg := range c.Args {
@@ -1371,11 +1472,9 @@ func (a *lfAn) fnBody(u *lfUnit) {
 		case *ast.FuncLit:
 			return false
 		case *ast.CallExpr:
-			saved := len(a.w.errs)
 			if _, unlock, ok := a.lockCall(u, c); ok && !unlock {
 				n++
 			}
-			a.w.errs = a.w.errs[:saved]
 		}
 		return true
 	}
@@ -1426,7 +1525,7 @@ func lockFactsLean(root string) (string, error) {
 				key := p.key + "." + short
 				n := 0
 				u := &lfUnit{key: key, short: short, pkg: p, file: lf, body: fd.Body, ftype: fd.Type, recv: fd.Recv,
-					env: map[string]lfTy{}, init: lfInitFns[key], owner: short, nlit: &n, direct: map[string]bool{}}
+					env: map[string][]lfBinding{}, init: lfInitFns[key], owner: short, nlit: &n, direct: map[string]bool{}}
 				for _, l := range lfCalledWith[key] {
 					u.ctx = append(u.ctx, lfHeld{name: l.name, excl: l.excl, ctx: true, expr: "<caller>." + l.name})
 				}
@@ -1522,7 +1621,28 @@ func lockFactsLean(root string) (string, error) {
 			}
 		}
 	}
+	for _, f := range lfShared {
+		name := f.strct + "." + strings.Join(f.path, ".")
+		n := 0
+		for _, r := range a.rows {
+			if r.field == name {
+				n++
+			}
+		}
+		if n == 0 {
+			w.errs = append(w.errs, "no access to configured shared field "+name+" was found")
+		}
+	}
 	if len(w.errs) > 0 {
+		seenErr := map[string]bool{}
+		var uniq []string
+		for _, e := range w.errs {
+			if !seenErr[e] {
+				seenErr[e] = true
+				uniq = append(uniq, e)
+			}
+		}
+		w.errs = uniq
 		return "", fmt.Errorf("lock-fact extraction failed (unrecognised constructs):\n  %s", strings.Join(w.errs, "\n  "))
 	}
 
